@@ -261,6 +261,18 @@ func c03RunIsolation(prefix []sletter, sp surplusPair) explore.Result {
 		res.Outcome = "isolation-rejected"
 		return res
 	}
+	// an empty-bodied message right behind it must not see the previous message's unread tail:
+	// a Query without any body has no query text at all (it is malformed), so no parser call can result
+	n0 := len(rec.Evs)
+	_, st = one.Step(pgproto.Msg('Q', nil))
+	if cb := cbSummary(rec.Evs[n0:]); len(cb) > 0 {
+		res.Fail("surplus-leaked", fmt.Sprintf("after %v + %s an EMPTY Query message reached the parser: %v (bytes of the previous message were read as its body)", names, sp.Name, cb))
+		return res
+	}
+	if st != memnet.Parked {
+		res.Outcome = "isolation"
+		return res // closing on the malformed empty Query is legitimate
+	}
 	out, _ := one.Step(pgproto.Sync())
 	if k := harness.Kinds(out); k != "Z" {
 		res.Fail("surplus-leaked", fmt.Sprintf("after %v + %s the following Sync was answered %q (expected exactly ReadyForQuery): surplus bytes leaked into the next message", names, sp.Name, k))
@@ -422,6 +434,20 @@ func c03RunAccessors(body []byte, depth int) explore.Result {
 			}
 		}
 	})
+	// the next message is read as its own message: an empty one leaves nothing to access
+	r.Msg = orig
+	r2 := buffer.NewReader(harness.Quiet, bytes.NewReader(pgproto.Cat(pgproto.Msg('Q', body), pgproto.Msg('S', nil), pgproto.Msg('Q', []byte("n\x00")))), 4096)
+	r2.ReadTypedMsg()
+	if len(body) > 1 {
+		r2.GetBytes(1) // leave an unread tail behind
+	}
+	if t, n, err := r2.ReadTypedMsg(); err != nil || byte(t) != 'S' || n != 4 || len(r2.Msg) != 0 {
+		res.Fail("empty-message-sees-previous-body", fmt.Sprintf("body % x followed by an empty message: ReadTypedMsg = (%q,%d,%v) and Msg holds %d bytes (% x), expected none", body, t, n, err, len(r2.Msg), r2.Msg))
+	} else if _, err := r2.GetString(); err == nil {
+		res.Fail("empty-message-sees-previous-body", fmt.Sprintf("body % x followed by an empty message: GetString succeeded on the empty message", body))
+	} else if t, _, err := r2.ReadTypedMsg(); err != nil || byte(t) != 'Q' || string(r2.Msg) != "n\x00" {
+		res.Fail("reader-resync", fmt.Sprintf("message after the empty one read as (%q, %q, %v)", t, r2.Msg, err))
+	}
 	res.Sub = seqs
 	res.States = []string{fmt.Sprintf("bodylen=%d", len(body))}
 	res.Trans = []string{fmt.Sprintf("bodylen=%d|%d accessor sequences|checked", len(body), seqs)}
